@@ -29,11 +29,12 @@ const cffPath = load.Module
 
 // Corpus is a directory of cff-tagged packages with the cff command lines to replay.
 type Corpus struct {
-	Name   string
-	Src    string     // directory to copy
-	Module string     // module path for a synthesised go.mod ("" = the copy has its own go.mod whose replace is rewritten)
-	Cmds   [][]string // argument lists for the cff binary, each with a working directory relative to the copy: first element is the directory
-	VRules bool       // extract base-mode instances and run the V-rules on them
+	Name     string
+	Src      string     // directory to copy
+	Module   string     // module path for a synthesised go.mod ("" = the copy has its own go.mod whose replace is rewritten)
+	Cmds     [][]string // argument lists for the cff binary, each with a working directory relative to the copy: first element is the directory
+	VRules   bool       // extract base-mode instances and run the V-rules on them
+	Modifier bool       // the corpus is generated in modifier mode: instances are the generated flow functions
 }
 
 // Result of regenerating the corpora.
@@ -245,8 +246,12 @@ func analyse(res *Result, c Corpus, dir string, env []string, directives map[str
 			if !ok {
 				continue
 			}
-			res.Instances = append(res.Instances, instancesOf(c.Name, rel, p, f, sf.pkg, sf.file, srcFset)...)
-			res.Outside = append(res.Outside, compareOutside(c.Name+"/"+rel, sf.pkg, sf.file, srcFset, p, f))
+			if c.Modifier {
+				res.Instances = append(res.Instances, modInstancesOf(c.Name, rel, p, f, sf.pkg, sf.file, srcFset)...)
+			} else {
+				res.Instances = append(res.Instances, instancesOf(c.Name, rel, p, f, sf.pkg, sf.file, srcFset)...)
+			}
+			res.Outside = append(res.Outside, compareOutside(c.Name+"/"+rel, sf.pkg, sf.file, srcFset, p, f, c.Modifier))
 			res.Tags = append(res.Tags, compareConstraints(c.Name+"/"+rel, sf.file, f))
 		}
 	}
